@@ -200,7 +200,7 @@ def long_lists():
 
 
 def wide_ids():
-    return I.family_W()
+    return I.family_W() + I.family_W3()
 
 
 def main(tier):
